@@ -29,6 +29,7 @@ static void alias_pair(Ctx& ctx, const ApiCase& aliased, const ApiCase& plain, b
     for (size_t i = 0; i < aliased.bufs.size() && err.empty(); ++i) {
       const Buf& b = aliased.bufs[i];
       if (b.role != R_OUT && b.role != R_INOUT) continue;
+      if (root_of(aliased, (int)i) != (int)i) continue;  // a source that is overwritten by documentation (idft_tmp_a) and shares the output's storage
       size_t n = std::min(b.bytes, plain.bufs[i].bytes);
       for (size_t k = 0; k < n; ++k)
         if (b.mask[k] != 0 && ra.after[i][k] != rp.after[i][k]) {
@@ -104,9 +105,11 @@ static void run_idft(Ctx& ctx, const Item& it) {
   MODULE_TYPE t = it.mtype == 0 ? FFT64 : NTT120;
   MODULE* mod = get_module(N, t, it.cfg);
   for (uint64_t rs : {0, 1, 2, 3, 7}) for (uint64_t as : {0, 1, 2, 3, 7}) {
-    DftShape s; s.N = N; s.rs = rs; s.as = as; s.variant = 1; s.alias = 1;
-    DftShape sp = s; sp.alias = 0;
-    alias_pair(ctx, gen_dft(mod, t, s, it.cfg.name), gen_dft(mod, t, sp, it.cfg.name), true);
+    for (int variant = 1; variant <= 2; ++variant) {  // vec_znx_idft and vec_znx_idft_tmp_a, each writing over its own input
+      DftShape s; s.N = N; s.rs = rs; s.as = as; s.variant = variant; s.alias = 1;
+      DftShape sp = s; sp.alias = 0;
+      alias_pair(ctx, gen_dft(mod, t, s, it.cfg.name), gen_dft(mod, t, sp, it.cfg.name), true);
+    }
   }
 }
 
